@@ -1137,6 +1137,14 @@ func main() {
 			}
 		}
 	}
+	// fixed witnesses of Props.v replayed on the code: rw-0 = C17_recycle_waited_node_refuted / C17_ex_waited_completes
+	// (the node of a key with a pending wake-up and a second waiter is recycled), mc-0 = C17_ex_missed_conflict
+	runWalk("rw-0", &config{size: 1, pat: []int{0, 0}, txns: []txn{{[]int{1}, 1, 2}, {[]int{1}, 5, 7}, {[]int{1}, 6, 0}},
+		recTS: []uint64{3 * unit}, recMax: 1, noMacro: true}, nil,
+		strings.Fields(fmt.Sprintf("a0 a1 a2 u0 p r c0:%d w t u1 p r w t u2 p r t", 3*unit)))
+	runWalk("mc-0", &config{size: 1, pat: []int{0, 0}, txns: []txn{{[]int{1}, unit, 2*unit + 1}, {[]int{1}, unit + 1, 0}},
+		recTS: []uint64{5 * unit}, recMax: 1, noMacro: true}, nil,
+		strings.Fields(fmt.Sprintf("a0 u0 p r t c0:%d a1", 5*unit)))
 	// walks: bigger configurations, random schedules
 	nw := 300
 	if thorough {
